@@ -18,12 +18,39 @@
         serialize.rs: is_autogen_name, decl_name, label names, alias lines; FALSE today in two
         classes, see known_findings.txt, keys starting with names: )
 
-    Proved: [C09_reread_means_text] (partial: whatever the reader returns for the written lines
-    has the meaning btor2 assigns to those lines, and is well typed and closed). *)
+    Proved: the reader inverts the writer's SPELLING node by node - every operator node
+    ([C09_node_roundtrip]: the operator name the writer prints selects, in the reader's tables,
+    the lowering that rebuilds the node, e.g. a signed comparison printed as an unsigned one
+    would break it) and every literal ([C09_literal_roundtrip]: zero / one / ones / const <bits>,
+    all widths, both of baa's code paths); and [C09_reread_means_text_partial]: whatever the
+    reader returns for the written lines has the meaning btor2 assigns to those lines. *)
 From Coq Require Import List String NArith Bool.
-From Patronus Require Import SysClosed Btor2Parse Btor2Ser Btor2Sem Btor2Agree Btor2Witness Btor2NoCrash Btor2Sound Btor2ParseProofs.
+From Patronus Require Import SysClosed Btor2Parse Btor2Ser Btor2Sem Btor2Agree Btor2Witness Btor2NoCrash Btor2Sound Btor2ParseProofs Btor2SerProofs.
 Import ListNotations.
 Open Scope N_scope.
+
+(** The reader inverts the writer's operator spelling, node by node: for every well-typed
+    operator node [e] whose numeric attributes fit u32, the line the writer prints for [e]
+    ([node_line]: operator name, extension amount, slice bounds), looked up in the reader's
+    operator tables and lowered on the children of [e], rebuilds [e] itself - up to the normal
+    form of the builders (a slice of the whole operand / an extension by 0 is the operand). *)
+Theorem C09_node_roundtrip :
+  forall e, wt e = true -> node_fits e = true ->
+    match e with BVSymbol _ _ | ArraySymbol _ _ _ | BVLiteral _ _ | ArrayConstant _ _ _ => False | _ => True end ->
+    reread_node true e = POk (norm_node e).
+Proof. exact reread_node_correct. Qed.
+Print Assumptions C09_node_roundtrip.
+
+(** ... and every literal: the line printed for [BVLiteral w v] is read back as [BVLiteral w v]
+    in any reader state in which the line's sort id denotes [bitvec w]. *)
+Theorem C09_literal_roundtrip :
+  forall st id sort w v toks,
+    0 < w -> v < 2 ^ w ->
+    node_line id sort (BVLiteral w v) [] = POk toks ->
+    get_bv_width st (tokn toks 2) = POk w ->
+    exists n, parse_format st toks (tokn toks 1) = POk (BVLiteral w v, n).
+Proof. exact literal_roundtrip. Qed.
+Print Assumptions C09_literal_roundtrip.
 
 (** PARTIAL (see the header): the second half of the round trip.  If the reader accepts the lines
     the writer produced, the system it returns (before renaming/demotion) evaluates, for every
